@@ -172,6 +172,13 @@ func (vc *VC) valueAt(fr *Frame, blk *ssa.BasicBlock, at ssa.Instruction, name s
 }
 
 func (vc *VC) localValue(fr *Frame, li *loopInfo, name string, phiOverride map[*ssa.Phi]SV) SV {
+	if name == "rangecount" {
+		it := fr.iters[li.rangeIt]
+		if li.rangeIt == nil || it == nil {
+			vc.fail("rangecount: loop %d of %s is not a range loop over a map", li.ord, fr.fn.Name())
+		}
+		return scalar(vc.mcard(it.mi, it.visited))
+	}
 	return vc.valueAt(fr, li.header, nil, name, phiOverride)
 }
 
